@@ -291,7 +291,7 @@ class Model:
         self.new_comm({"op": "comm_dup", "comm": name}, "comm_dup", [list(c[w]) if c[w] is not None else None for w in self.world], only)
         self.labels.append("dup")
 
-    def step_create(self, csel, labels, xs):
+    def step_create(self, csel, labels, xs, group_only=False):
         """MPI_Comm_create(parent, group): every process of the parent passes the group of the processes that carry its label (the
         same list, in the same order, on all of them; MPI-3: disjoint groups); label None = the empty group -> MPI_COMM_NULL."""
         name, c = self.C(csel)
@@ -313,6 +313,14 @@ class Model:
         self.emit({"op": "comm_group", "comm": name, "out": tmp}, "comm_group", {w: self.group_fields(c[w], w) for w in only}, only)
         self.emit({"op": "group_incl", "group": tmp, "ranks": per_rank(ranks), "out": tmp + "s"}, "group_incl",
                   {w: self.group_fields(vals[w] or [], w) for w in only}, only)
+        if group_only:
+            # MPI-3 MPI_Comm_create_group: collective over the members of the group only (tag = their label)
+            callers = [w for w in only if vals[w] is not None]
+            if callers:
+                self.new_comm({"op": "comm_create_group", "comm": name, "group": tmp + "s",
+                               "tag": per_rank([labels[w % len(labels)] or 0 for w in self.world])}, "comm_create_group", vals, callers)
+                self.labels.append("create_group")
+            return
         self.new_comm({"op": "comm_create", "comm": name, "group": tmp + "s"}, "comm_create", vals, only)
         self.labels.append("create")
         if any(labels[w % len(labels)] is None for w in only):
@@ -401,7 +409,7 @@ step = st.one_of(
     st.tuples(st.just("compare"), small, small),
     st.tuples(st.just("split"), small, colors, keys),
     st.tuples(st.just("dup"), small),
-    st.tuples(st.just("create"), small, st.lists(st.sampled_from([0, 0, 1, 2, None]), min_size=1, max_size=MAXNP), xs_list),
+    st.tuples(st.just("create"), small, st.lists(st.sampled_from([0, 0, 1, 2, None]), min_size=1, max_size=MAXNP), xs_list, st.booleans()),
     st.tuples(st.just("ccompare"), small, small),
     st.tuples(st.just("iso"), small, small, small, small, st.booleans(), st.booleans(), st.integers(0, 5)),
     st.tuples(st.just("iso"), small, small, small, small, st.booleans(), st.booleans(), st.integers(0, 5)),
@@ -418,7 +426,7 @@ def cases(draw):
 class C32(core.Prop):
     id = "C32"
     drivers = ["mpi_interp"]
-    sizes = {"quick": 1200, "thorough": 30000}
+    sizes = {"quick": 1000, "thorough": 30000}
     max_workers = 4
     technique = ("stateful property-based testing (Hypothesis): ordered-list reference of the MPI-3.1 group algebra and communicator "
                  "constructors, compared with what every rank of an SMPI program observes")
@@ -427,7 +435,7 @@ class C32(core.Prop):
             "steps is a valid program): Group_incl/excl (any order of distinct ranks), range_incl/range_excl (positive and negative "
             "strides), union, intersection, difference (also with MPI_GROUP_EMPTY), Comm_group, translate_ranks (with MPI_PROC_NULL and "
             "ranks absent from the target), Group_compare, Comm_split (colors incl. MPI_UNDEFINED, keys with ties and negatives), Comm_dup, "
-            "Comm_create (one group for all, disjoint groups, empty group), Comm_compare, and an isolation step: p sends one message on "
+            "Comm_create (one group for all, disjoint groups, empty group), Comm_create_group, Comm_compare, and an isolation step: p sends one message on "
             "communicator A then one on B with the same tag, q receives on B first (optionally ANY_SOURCE/ANY_TAG) then on A. "
             "Every member process executes every step; after each constructor the driver reports size, the caller's rank and the "
             "member list translated to world ranks.  Oracle: ordered lists of world ranks. Non-trivial: a binary group operation on two "
